@@ -280,6 +280,15 @@ func checkC05(c *Check) {
 			}
 			// 3. same event
 			fields := structLitFields(h.Val)
+			if fields == nil {
+				// the login is a parameter of a hand-over helper: its fields are
+				// set where the caller builds it
+				if prm, isPrm := strip(h.Val).(*ssa.Parameter); isPrm {
+					if o := r.Env[prm]; o != nil && o.V != nil {
+						fields = structLitFields(o.V)
+					}
+				}
+			}
 			evArg := theWrite.Call.Args[1]
 			if fields == nil {
 				c.Unk("same-event", name, pos, "forwarded value is not a struct literal; cannot identify its fields")
